@@ -522,7 +522,7 @@ theorem lmax_ne_zero (l : LenTy) (hl : l.Law) : l.max ≠ 0 := by
   have : l.max = 256 ^ l.size - 1 := rfl
   omega
 
-/-- what `push` needs from the item emplacer: the checked entry point's contract (`C15_emplace_total_partial`) -/
+/-- what `push` needs from the item emplacer: the checked entry point's contract (`C15_emplace_total`) -/
 def EmplaceSpec (t : Ty) (i : Init) : Prop :=
   ∀ s : Slice, ∃ o, emplace t i s = .ok o ∧ o.bytes.length = s.len ∧
     (o.res = .ok () → t.dict.validate ⟨s.addr, o.bytes⟩ = .ok ())
